@@ -163,7 +163,7 @@ def second_pass(recs, thash, tier):
     if not todo or os.environ.get("PYVC_NO_SECOND_PASS"):
         return recs
     ctx = mp.get_context("fork")
-    with ctx.Pool(min(4, len(todo)), initializer=_init_worker) as pool:
+    with ctx.Pool(min(4, len(todo)), initializer=_init_worker, maxtasksperchild=1) as pool:
         results = dict(pool.map(_resolve_worker, todo, chunksize=1))
     for r in recs:
         upd = results.get(r["function"])
@@ -191,12 +191,27 @@ def second_pass(recs, thash, tier):
 def verify_functions(fqns, tier="quick", jobs=None):
     thash = tree_hash()
     jobs = jobs or min(16, max(1, len(fqns)))
-    args = [(f, thash, tier) for f in fqns]
-    if jobs == 1 or len(fqns) == 1:
-        _init_worker()
-        recs = [_verify_worker(a) for a in args]
-    else:
-        ctx = mp.get_context("fork")
-        with ctx.Pool(jobs, initializer=_init_worker) as pool:
-            recs = pool.map(_verify_worker, args, chunksize=1)
+    # scheduling only (no influence on any verdict): the functions with the most obligations on the baseline tree start first
+    cost = _baseline_cost()
+    order = sorted(range(len(fqns)), key=lambda i: (-cost.get(fqns[i], 0), i))
+    args = [(fqns[i], thash, tier) for i in order]
+    # Every function is verified in a process of its own, forked from this one (maxtasksperchild=1): the z3 context, the
+    # fresh-name counters and every cache of the engine start from the same state whatever was verified before and on
+    # whichever worker, so the obligations generated for a function -- and with the resource-unit budgets their verdicts --
+    # are a function of the tree alone.  (A long-lived worker that had verified other functions before generated different
+    # path sets for the same function: seen as 176 vs 204 obligations for Lock.__aenter__ on the same tree.)
+    ctx = mp.get_context("fork")
+    with ctx.Pool(max(1, min(jobs, len(args))), initializer=_init_worker, maxtasksperchild=1) as pool:
+        done = pool.map(_verify_worker, args, chunksize=1)
+    recs = [None] * len(fqns)
+    for i, r in zip(order, done):
+        recs[i] = r
     return second_pass(recs, thash, tier)
+
+
+def _baseline_cost():
+    try:
+        with open(os.path.join(VERIF, "baseline", "obligations.json")) as fh:
+            return {k: v.get("n", 0) for k, v in json.load(fh).get("functions", {}).items()}
+    except (OSError, ValueError):
+        return {}
